@@ -2,7 +2,7 @@
     lines [Spec.Meaning] matches does not depend on the || levels the leaves carry, hence not on
     whether the grammar was written with [||] or with [|].
 
-    [erase] sets every level to 0 (inside within-word expressions too).  [rel] relates a state
+    [erase] sets every level to 0 and drops every description (inside within-word expressions too).  [rel] relates a state
     with its erased image; [rel_step] shows that reading a word preserves the relation, because
     the rule [chosen] never looks at a level. *)
 From CG Require Import Base.Prelude Model.Ast Model.Check Spec.Rx Spec.Meaning
@@ -10,14 +10,14 @@ From CG Require Import Base.Prelude Model.Ast Model.Check Spec.Rx Spec.Meaning
 
 Definition erase_w (a : wleaf) : wleaf :=
   match a with
-  | WLit t d _ => WLit t d 0
+  | WLit t _ _ => WLit t None 0
   | WCmd c _ => WCmd c 0
   | WAny => WAny
   end.
 
 Definition erase_l (a : leaf) : leaf :=
   match a with
-  | LLit t d _ => LLit t d 0
+  | LLit t _ _ => LLit t None 0
   | LCmd c _ => LCmd c 0
   | LAny => LAny
   | LSub x _ => LSub (rmap erase_w x) 0
@@ -92,7 +92,7 @@ Proof.
     + rewrite lf_erase. apply in_map_iff. exists (a, k). split; assumption.
 Qed.
 
-Lemma erase_l_lit a w d l : erase_l a = LLit w d l -> exists l0, a = LLit w d l0.
+Lemma erase_l_lit a w d l : erase_l a = LLit w d l -> exists d0 l0, a = LLit w d0 l0.
 Proof. destruct a; cbn; intro H; inversion H; subst. eauto. Qed.
 
 Section Rel.
@@ -105,8 +105,8 @@ Section Rel.
     split.
     - intros [d [l [k' Hin]]]. apply (rel_moves _ _ R) in Hin. destruct Hin as [[a k] [Hin E]].
       unfold erase_move in E. cbn [fst snd] in E. inversion E as [[Ea Ek]].
-      apply erase_l_lit in Ea. destruct Ea as [l0 ->]. exists d, l0, k. assumption.
-    - intros [d [l [k Hin]]]. exists d, 0, (erase k).
+      apply erase_l_lit in Ea. destruct Ea as [d0 [l0 ->]]. exists d0, l0, k. assumption.
+    - intros [d [l [k Hin]]]. exists None, 0, (erase k).
       apply (rel_moves _ _ R). exists (LLit w d l, k). split; [assumption | reflexivity].
   Qed.
 
